@@ -1,4 +1,4 @@
-import H5V.Lemmas.HtmlTBSkelShapeScope
+import H5V.Lemmas.HtmlTBSkelAdjEarly
 /-!
 C06, second invariant layer, part 8: insertion in the body-like modes never has the root as parent:
 the appropriate place for insertion, `insert_element`, text and comment insertion preserve `Big`.
@@ -10,8 +10,12 @@ open H5V.Lemmas.Dom
 
 /-- where the foster-parenting loop over `l` (a final part of the reversed stack) ends -/
 inductive FRes (s : State) (l : List Id) : InsertionPoint → Prop
-  | tmpl (t tc : Id) : t ∈ l → s.dom.templateContentsOf t = some tc → FRes s l (.lastChild tc)
+  | tmpl (t tc : Id) : t ∈ l → s.dom.templateContentsOf t = some tc →
+      (∃ pre post, l = pre ++ t :: post ∧ (∀ y ∈ pre, htmlIn (nm s.dom y) ["table", "template"] = false) ∧
+        nm s.dom t = hN "template") →
+      FRes s l (.lastChild tc)
   | table (pre post : List Id) (e p : Id) : l = pre ++ e :: p :: post → nm s.dom e = hN "table" →
+      (∀ y ∈ pre, htmlIn (nm s.dom y) ["table", "template"] = false) →
       FRes s l (.tableFosterParenting e p)
   | bottom (h : Id) : s.openElems.head? = some h →
       (∀ y ∈ l, htmlIn (nm s.dom y) ["table", "template"] = false) → FRes s l (.lastChild h)
@@ -19,8 +23,19 @@ inductive FRes (s : State) (l : List Id) : InsertionPoint → Prop
 theorem FRes.cons {s : State} {l : List Id} {ip : InsertionPoint} (x : Id)
     (hx : htmlIn (nm s.dom x) ["table", "template"] = false) (h : FRes s l ip) : FRes s (x :: l) ip := by
   cases h with
-  | tmpl t tc h1 h2 => exact .tmpl t tc (List.mem_cons_of_mem _ h1) h2
-  | table pre post e p h1 h2 => exact .table (x :: pre) post e p (by rw [h1]; rfl) h2
+  | tmpl t tc h1 h2 h3 =>
+    obtain ⟨pre, post, hl, hpre, hnt⟩ := h3
+    refine .tmpl t tc (List.mem_cons_of_mem _ h1) h2 ⟨x :: pre, post, by rw [hl]; rfl, ?_, hnt⟩
+    intro y hy
+    rcases List.mem_cons.mp hy with rfl | hy
+    · exact hx
+    · exact hpre y hy
+  | table pre post e p h1 h2 h3 =>
+    refine .table (x :: pre) post e p (by rw [h1]; rfl) h2 ?_
+    intro y hy
+    rcases List.mem_cons.mp hy with rfl | hy
+    · exact hx
+    · exact h3 y hy
   | bottom hh h1 h2 =>
     refine .bottom hh h1 ?_
     intro y hy
@@ -66,7 +81,12 @@ theorem fosterLoop_sem : ∀ (l : List Id) (s s' : State) (ip : InsertionPoint),
       obtain ⟨rfl, rfl⟩ := pure_ok.mp e4
       obtain ⟨htc, q2⟩ := sinkNode_tc e3
       have q2' : QS s1 s2 := IsQ.q _ _ _ e3
-      refine ⟨q1.trans q2', .tmpl el tc (by simp) ?_⟩
+      have hnt : nm s.dom el = hN "template" := by
+        rw [hb1] at h1
+        simp only [Bool.and_eq_true, beq_iff_eq] at h1
+        have : nm s.dom el = ⟨(nm s.dom el).ns, (nm s.dom el).loc⟩ := rfl
+        rw [this, h1.1, h1.2]; rfl
+      refine ⟨q1.trans q2', .tmpl el tc (by simp) ?_ ⟨[], rest, rfl, (by intro y hy; cases hy), hnt⟩⟩
       unfold Dom.templateContentsOf at htc ⊢
       unfold Dom.dataOf at htc ⊢
       rw [← q1.nodes]; exact htc
@@ -80,7 +100,7 @@ theorem fosterLoop_sem : ∀ (l : List Id) (s s' : State) (ip : InsertionPoint),
         | nil => exact absurd e4 panicAt_ok
         | cons prev r =>
           obtain ⟨rfl, rfl⟩ := pure_ok.mp e4
-          refine ⟨q12, .table [] r el prev rfl ?_⟩
+          refine ⟨q12, .table [] r el prev rfl ?_ (by intro y hy; cases hy)⟩
           rw [hb2, q1.nm] at h2
           simp only [Bool.and_eq_true, beq_iff_eq] at h2
           have : nm s.dom el = ⟨(nm s.dom el).ns, (nm s.dom el).loc⟩ := rfl
@@ -95,11 +115,14 @@ theorem fosterLoop_sem : ∀ (l : List Id) (s s' : State) (ip : InsertionPoint),
         -- transport the result from s2 to s
         have hres' : FRes s rest ip := by
           cases hres with
-          | tmpl t tc h1' h2' =>
-            refine .tmpl t tc h1' ?_
+          | tmpl t tc h1' h2' h3' =>
+            obtain ⟨pre, post, hl, hpre, hnt⟩ := h3'
+            refine .tmpl t tc h1' ?_ ⟨pre, post, hl, fun y hy => by rw [← q12.nm]; exact hpre y hy,
+              by rw [← q12.nm]; exact hnt⟩
             unfold Dom.templateContentsOf Dom.dataOf at h2' ⊢
             rw [← q12.nodes]; exact h2'
-          | table pre post e' p h1' h2' => exact .table pre post e' p h1' (by rw [← q12.nm]; exact h2')
+          | table pre post e' p h1' h2' h3' =>
+            exact .table pre post e' p h1' (by rw [← q12.nm]; exact h2') (fun y hy => by rw [← q12.nm]; exact h3' y hy)
           | bottom hh h1' h2' =>
             exact .bottom hh (by rw [← q12.openElems]; exact h1') (fun y hy => by rw [← q12.nm]; exact h2' y hy)
         exact hres'.cons el hx
@@ -116,8 +139,12 @@ theorem tc_of_nodes {d d' : Dom} (h : d'.nodes = d.nodes) (x : Id) : d'.template
 
 theorem FRes.qs {s s' : State} {l : List Id} {ip : InsertionPoint} (h : FRes s' l ip) (q : QS s s') : FRes s l ip := by
   cases h with
-  | tmpl t tc h1 h2 => exact .tmpl t tc h1 (by rw [← tc_of_nodes q.nodes]; exact h2)
-  | table pre post e p h1 h2 => exact .table pre post e p h1 (by rw [← q.nm]; exact h2)
+  | tmpl t tc h1 h2 h3 =>
+    obtain ⟨pre, post, hl, hpre, hnt⟩ := h3
+    exact .tmpl t tc h1 (by rw [← tc_of_nodes q.nodes]; exact h2)
+      ⟨pre, post, hl, fun y hy => by rw [← q.nm]; exact hpre y hy, by rw [← q.nm]; exact hnt⟩
+  | table pre post e p h1 h2 h3 =>
+    exact .table pre post e p h1 (by rw [← q.nm]; exact h2) (fun y hy => by rw [← q.nm]; exact h3 y hy)
   | bottom hh h1 h2 => exact .bottom hh (by rw [← q.openElems]; exact h1) (fun y hy => by rw [← q.nm]; exact h2 y hy)
 
 theorem apfiRest_sem {s s' : State} {target : Id} {ip : InsertionPoint} (e : apfiRest target s = .ok (ip, s')) :
@@ -354,6 +381,99 @@ theorem Big.ipR {m : Mode} {r : Id} {ph : Phase} {s : State} {t : Id} {ip : Inse
       have := hall x (List.mem_reverse.mpr hx)
       rw [hxn] at this; cases this
 
+theorem exm_of_constrained {n : EName} (h : constrained n = true) : exm n = true := by
+  unfold exm; rw [h]; rfl
+
+/-- in the body-like modes no open element (outside `exm`) precedes the place where a node is inserted
+for the current node: text put there does not land behind an open element -/
+theorem Big.no_open_before {m : Mode} {r : Id} {ph : Phase} {s : State} {t : Id} {ip : InsertionPoint} (h : Big m r ph s)
+    (ht : s.openElems.getLast? = some t) (ha : ARes s t ip) :
+    ∀ P a b x, s.dom.childrenOf P = a ++ b → NodePos s.dom ip P b → x ∈ a → x ∈ s.openElems →
+      exm (nm s.dom x) = false → False := by
+  obtain ⟨up, hc, hbb, _, _⟩ := id h
+  have hadj := hc.adj
+  have htO : t ∈ s.openElems := mem_of_getLast?' ht
+  intro P a b x hP hpos hxa hxO hxx
+  have hxP : x ∈ s.dom.childrenOf P := by rw [hP]; exact List.mem_append_left _ hxa
+  cases ha with
+  | plain =>
+    cases hpos with
+    | last hb hip =>
+      rcases hip with hip | ⟨e, hip, _⟩
+      · have hPt : t = P := by injection hip
+        rw [← hPt] at hxP
+        exact not_before_last hc.nodup ht (hadj.pb t x hxP hxO htO)
+      · cases hip
+    | before e p b' hip _ _ _ => cases hip
+  | tmpl tc htc htn =>
+    cases hpos with
+    | last hb hip =>
+      rcases hip with hip | ⟨e, hip, _⟩
+      · have hPt : tc = P := by injection hip
+        rw [← hPt] at hxP
+        exact not_before_last hc.nodup ht (hadj.pbt t tc x htc htn hxP hxO htO)
+      · cases hip
+    | before e p b' hip _ _ _ => cases hip
+  | foster ip' hflag htgt hres =>
+    cases hres with
+    | tmpl t' tc ht' htc hsp =>
+      obtain ⟨pre, post, hl, hpre, htn⟩ := hsp
+      cases hpos with
+      | last hb hip =>
+        rcases hip with hip | ⟨e, hip, _⟩
+        · have hPt : tc = P := by injection hip
+          rw [← hPt] at hxP
+          have ht'O : t' ∈ s.openElems := List.mem_reverse.mp ht'
+          have hbf := hadj.pbt t' tc x htc htn hxP hxO ht'O
+          have hxpre := mem_pre_of_before hc.nodup hl hbf
+          have := pre_constrained hc.tg hl ht htgt hpre x hxpre
+          rw [exm_of_constrained this] at hxx; cases hxx
+        · cases hip
+      | before e p b' hip _ _ _ => cases hip
+    | table pre post e p hl hn hpre =>
+      have heO : e ∈ s.openElems := List.mem_reverse.mp (by rw [hl]; simp)
+      have hpO : p ∈ s.openElems := List.mem_reverse.mp (by rw [hl]; simp)
+      cases hpos with
+      | last hb hip =>
+        rcases hip with hip | ⟨e', hip, hpe⟩
+        · cases hip
+        · have heq : e = e' ∧ p = P := by
+            injection hip with h1 h2; exact ⟨h1, h2⟩
+          rw [← heq.1] at hpe
+          rw [← heq.2] at hxP
+          -- x is a child of p, the element below the parentless table on the stack
+          have hbf := hadj.pb p x hxP hxO hpO
+          have hl' : s.openElems.reverse = (pre ++ [e]) ++ p :: post := by rw [hl]; simp
+          have hxpre := mem_pre_of_before hc.nodup hl' hbf
+          rcases List.mem_append.mp hxpre with h1 | h1
+          · have := pre_constrained hc.tg hl ht htgt hpre x h1
+            rw [exm_of_constrained this] at hxx; cases hxx
+          · have hxe : x = e := by simpa using h1
+            have := hadj.lk p x hxP
+            rw [hxe, hpe] at this; cases this
+      | before e' p' b' hip hpe hem hb =>
+        have heq : e = e' := by injection hip
+        rw [← heq] at hb
+        -- x precedes the table among its siblings
+        have hbfc : Before (s.dom.childrenOf P) x e := by
+          rw [hP, hb]
+          obtain ⟨a1, a2, ha⟩ := List.append_of_mem hxa
+          rw [ha]
+          have : a1 ++ x :: a2 ++ e :: b' = a1 ++ ([x] ++ (a2 ++ ([e] ++ b'))) := by simp
+          rw [this]
+          exact (List.Sublist.append (List.Sublist.refl [x])
+            ((List.sublist_append_left [e] b').trans (List.sublist_append_right a2 _))).trans
+            (List.sublist_append_right a1 _)
+        have hbf := hadj.tb P x e hbfc hxO heO hxx hn
+        have hxpre := mem_pre_of_before hc.nodup hl hbf
+        have := pre_constrained hc.tg hl ht htgt hpre x hxpre
+        rw [exm_of_constrained this] at hxx; cases hxx
+    | bottom hh _ hall =>
+      obtain ⟨y, hy, hyn⟩ := tg_foster_witness hc.tg (by rw [hc.stack]; simp) (by rw [hc.stack]; simp [hc.root_name])
+        htO htgt
+      have := hall y (List.mem_reverse.mpr hy)
+      rw [hyn] at this; cases this
+
 /-- `insert_element`, decomposed: place, (queries), create, (query), insert, push -/
 theorem insertElement_run {s s' : State} {pushIt : Bool} {ns name : Str} {attrs : List Attr} {dup : Bool} {el : Id}
     (e : insertElement pushIt ns name attrs dup s = .ok (el, s')) :
@@ -464,7 +584,8 @@ theorem createElement_core {s s3 : State} {r : Id} {up : List Id} {ph : Phase} {
     rw [hdom1]
     exact rs_createElement r h.late.base _ _ _
   have hr := hdo
-  refine ⟨h.transfer hl3 hc1 hrs (by rw [hk1]; exact h.rdoc) ?_ ?_ ?_ ?_ ?_, hdo, hc1, hfresh, ?_, ?_, ?_⟩
+  refine ⟨h.transfer hl3 hc1 hrs (by rw [hk1]; exact h.rdoc) ?_ ?_ ?_ ?_ ?_ (createElement_adj h.late h.adj e).1,
+    hdo, hc1, hfresh, ?_, ?_, ?_⟩
   · rw [hr]
   · rw [hr]
   · rw [hr]
@@ -522,10 +643,11 @@ theorem PushOk.of_plain {s : State} {n : EName} (hk : keepName n = false) : Push
 
 /-- pushing a fresh, loose element -/
 theorem Core.pushG {s : State} {r : Id} {up : List Id} {ph : Phase} (h : Core s r up ph) {x : Id}
-    (hx : Loose s.dom x) (hfresh : x ∉ s.openElems) (hk : PushOk s (nm s.dom x)) :
+    (hx : Loose s.dom x) (hfresh : x ∉ s.openElems) (hk : PushOk s (nm s.dom x))
+    (hadj : AdjD s.dom (s.openElems ++ [x])) :
     Core { s with openElems := s.openElems ++ [x] } r (up ++ [x]) ph := by
   refine ⟨h.late.push hx, by show s.openElems ++ [x] = _; rw [h.stack]; rfl, h.rdoc, ?_, ?_, h.afn, ?_, h.tmm, h.form,
-    h.rtu, h.rnd, h.kids, h.elems, ?_, h.afx⟩
+    h.rtu, h.rnd, h.kids, h.elems, ?_, h.afx, hadj⟩
   · show (s.openElems ++ [x]).Nodup
     rw [List.nodup_append]
     exact ⟨h.nodup, by simp, by intro a ha b hb; simp at hb; subst hb; rintro rfl; exact hfresh ha⟩
@@ -553,9 +675,10 @@ theorem Core.pushG {s : State} {r : Id} {up : List Id} {ph : Phase} (h : Core s 
       · exact bh_of4 hk.2.1
 
 theorem Core.push {s : State} {r : Id} {up : List Id} {ph : Phase} (h : Core s r up ph) {x : Id}
-    (hx : Loose s.dom x) (hfresh : x ∉ s.openElems) (hk : keepName (nm s.dom x) = false) :
+    (hx : Loose s.dom x) (hfresh : x ∉ s.openElems) (hk : keepName (nm s.dom x) = false)
+    (hadj : AdjD s.dom (s.openElems ++ [x])) :
     Core { s with openElems := s.openElems ++ [x] } r (up ++ [x]) ph :=
-  h.pushG hx hfresh (PushOk.of_plain hk)
+  h.pushG hx hfresh (PushOk.of_plain hk) hadj
 
 theorem BodyBase.snoc {d : Dom} {head : Option Id} {up : List Id} {ph : Phase} (h : BodyBase d head up ph) {x : Id}
     (hx : ∀ hh, head = some hh → x ≠ hh) : BodyBase d head (up ++ [x]) ph := by
@@ -579,11 +702,11 @@ theorem Need.mono {d : Dom} {m : Mode} {up up' : List Id} (h : Need d m up) (hs 
 /-- the arena changed without touching the root, the stack is unchanged -/
 theorem Big.dom {m : Mode} {r : Id} {ph : Phase} {s s' : State} (h : Big m r ph s) (hl : Late s')
     (hdo : DomOnly s s') (hc : Chg s.dom s'.dom) (hrs : RS r s.dom s'.dom)
-    (hk0 : s'.dom.childrenOf 0 = s.dom.childrenOf 0) : Big m r ph s' := by
+    (hk0 : s'.dom.childrenOf 0 = s.dom.childrenOf 0) (hadj : AdjD s'.dom s'.openElems) : Big m r ph s' := by
   obtain ⟨up, hcore, hbb, hneed, hfp⟩ := h
   have hr := hdo
   have hcore' : Core s' r up ph := hcore.transfer hl hc hrs (by rw [hk0]; exact hcore.rdoc)
-    (by rw [hr]) (by rw [hr]) (by rw [hr]) (by rw [hr]) (by rw [hr])
+    (by rw [hr]) (by rw [hr]) (by rw [hr]) (by rw [hr]) (by rw [hr]) hadj
   have hsn := hcore.sameNames hc
   have hhead : s'.headElem = s.headElem := by rw [hr]
   have hfl : s'.fosterParenting = s.fosterParenting := by rw [hr]
@@ -693,7 +816,43 @@ theorem insertElement_gen {m : Mode} {r : Id} {ph : Phase} {s s' : State} {pushI
     intro p hp
     have := hipok2.nodes_lt p hp
     exact Nat.ne_of_lt (Nat.lt_of_lt_of_le this hfresh3)
-  have hb5 : Big m r ph s5 := hb4.dom hl5 hdo5 hext5.chg hrs45 hk05
+  have hcand : ∀ p, ip.nodes.1 = p ∨ ip.nodes.2 = some p → p ≠ el := fun p hp =>
+    Nat.ne_of_lt (Nat.lt_of_lt_of_le (hipok2.nodes_lt p hp) hfresh3)
+  obtain ⟨_, hpar3, hkids3, htxt3, htc3, _, hch3, hpo3, hda3⟩ := createElement_adj hc2.late hc2.adj e3
+  have hst4 : s4.openElems = s.openElems := by
+    rw [q34.openElems, hdo3]; show s2.openElems = _; exact q02.openElems
+  have hsz2 : s2.dom.size = s.dom.size := by simp [Dom.size, q02.nodes]
+  have hel_nO : el ∉ s4.openElems := by
+    rw [hst4]
+    intro hm
+    exact Nat.lt_irrefl _ (Nat.lt_of_lt_of_le (lt_of_isElement (h.late.st.oe el hm)) (by rw [← hsz2]; exact hfresh3))
+  have hch4 : ∀ x, s4.dom.childrenOf x = s.dom.childrenOf x := fun x => by
+    rw [childrenOf_of_nodes q34.nodes, hch3, childrenOf_of_nodes q02.nodes]
+  obtain ⟨hadj5, hadj5p⟩ := insertAt_new_adj (el := el) hb4.late hipok4
+    (by obtain ⟨_, hc4, _⟩ := id hb4; exact hc4.adj) hel_nO
+    (by rw [parentOf_of_nodes q34.nodes]; exact hpar3)
+    (by rw [isText_of_data (d := s3.dom) (by unfold Dom.dataOf; rw [q34.nodes])]; exact htxt3)
+    (by rw [childrenOf_of_nodes q34.nodes]; exact hkids3)
+    (fun tc htc => by
+      rw [tc_of_nodes q34.nodes] at htc
+      obtain ⟨h1, h2⟩ := htc3 tc htc
+      refine ⟨by rw [childrenOf_of_nodes q34.nodes]; exact h1, fun p hp => ?_⟩
+      exact Nat.ne_of_lt (Nat.lt_of_lt_of_le (hipok2.nodes_lt p hp) h2))
+    hcand
+    (fun P a b x hP hpos hxa hxO hxx => by
+      refine h.no_open_before ht hares P a b x (by rw [← hch4]; exact hP) ?_ hxa (by rw [← hst4]; exact hxO) ?_
+      · refine hpos.congr (fun y => (hch4 y).symm) (fun p hp => ?_)
+        have hlt := hipok2.nodes_lt p hp
+        rw [parentOf_of_nodes q34.nodes, hpo3 p hlt, parentOf_of_nodes q02.nodes]
+      · have hxO' : x ∈ s.openElems := by rw [← hst4]; exact hxO
+        have hlt : x < s2.dom.size := by rw [hsz2]; exact lt_of_isElement (h.late.st.oe x hxO')
+        have : nm s4.dom x = nm s.dom x := by
+          rw [nm_of_nodes q34.nodes, nm_of_data (hda3 x hlt), nm_of_nodes q02.nodes]
+        rw [← this]; exact hxx)
+    e5
+  have hb5 : Big m r ph s5 := hb4.dom hl5 hdo5 hext5.chg hrs45 hk05 (by
+    have : s5.openElems = s4.openElems := by rw [hdo5]
+    rw [this]; exact hadj5)
   have hnm5 : nm s5.dom el = ⟨ns, name⟩ := by
     rw [nm_chg hext5.chg hel4, nm_of_nodes q34.nodes]; exact hnm3
   have hel5 : s5.dom.isElement el = true := hext5.chg.isElement hel4
@@ -729,7 +888,9 @@ theorem insertElement_gen {m : Mode} {r : Id} {ph : Phase} {s s' : State} {pushI
           rw [h5, h34, h3, h02]
         rw [hst5, htm5, tcount_congr (SameNames.of_chg hchg05 h.late.st.oe)]
         exact hk3 hn
-    have hcp := hc5.pushG hloose5 hfr hpk
+    have hcp := hc5.pushG hloose5 hfr hpk (by
+      have : s5.openElems = s4.openElems := by rw [hdo5]
+      rw [this]; exact hadj5p)
     refine ⟨⟨up5 ++ [el], hcp, ?_, hneed5.mono (fun x hx => List.mem_append_left _ hx), ?_⟩, hmode5.1, hmode5.2.1,
       hnm5, hel5, hsz, by show s5.openElems ++ [el] = _; rw [hst5], hmode5.2.2.1, hmode5.2.2.2⟩
     · refine hbb5.snoc (fun hh hhe => ?_)
@@ -772,22 +933,21 @@ instance (tag : Tag) [PlainStr tag.name] : PB (insertAndPopElementFor tag) := by
 instance (n : String) [PlainStr n.toList] : PB (insertPhantom n) := by unfold insertPhantom; infer_instance
 
 /-- `insert_appropriately` of text, or of a node that is in no child list yet -/
-theorem insertAppropriately_big {m : Mode} {r : Id} {ph : Phase} {s s' : State} {child : NodeOrText} {o : Option Id}
-    {u : Unit} (h : Big m r ph s) (ho : ∀ t, o = some t → t ∈ s.openElems ∧ t ≠ r)
+theorem insertAppropriately_big {m : Mode} {r : Id} {ph : Phase} {s s' : State} {child : NodeOrText}
+    {u : Unit} (h : Big m r ph s)
     (hch : match child with
       | .node c => (∀ q, c ∉ s.dom.childrenOf q) ∧ (∀ x, x < s.dom.size → s.dom.isContainer x = true → x ≠ c) ∧
-          (s.dom.isElement c = true ∨ ∃ t, s.dom.dataOf c = some (.comment t))
+          (s.dom.isElement c = true ∨ ∃ t, s.dom.dataOf c = some (.comment t)) ∧ s.dom.parentOf c = none ∧
+          c ∉ s.openElems
       | .text t => t ≠ [])
-    (e : insertAppropriately child o s = .ok (u, s')) :
+    (e : insertAppropriately child none s = .ok (u, s')) :
     Big m r ph s' ∧ DomOnly s s' ∧ Chg s.dom s'.dom := by
   unfold insertAppropriately at e
   obtain ⟨ip, s1, e1, e2⟩ := bind_ok.mp e
   obtain ⟨q1, t, ht, hares⟩ := apfi_sem e1
   obtain ⟨_, _, hipok1⟩ := apfi_spec h.late e1
-  have htr : t ∈ s.openElems ∧ t ≠ r := by
-    cases o with
-    | some t' => simp only at ht; subst ht; exact ho _ rfl
-    | none => simp only at ht; exact h.current ht
+  simp only at ht
+  have htr : t ∈ s.openElems ∧ t ≠ r := h.current ht
   have hipr : IpR r s.dom ip := h.ipR htr hares
   have hb1 : Big m r ph s1 := h.qs q1
   have hipr1 : IpR r s1.dom ip := hipr.rs (RS.of_nodes q1.nodes)
@@ -796,7 +956,7 @@ theorem insertAppropriately_big {m : Mode} {r : Id} {ph : Phase} {s s' : State} 
   have hch1 : ChildOk s1.dom child := by
     cases child with
     | node c =>
-      obtain ⟨h1, _, h3⟩ := hch
+      obtain ⟨h1, _, h3, _⟩ := hch
       refine ⟨by rw [hk]; exact h1 0, ?_⟩
       have hd : s1.dom.dataOf c = s.dom.dataOf c := by unfold Dom.dataOf; rw [q1.nodes]
       rw [hd]
@@ -830,7 +990,48 @@ theorem insertAppropriately_big {m : Mode} {r : Id} {ph : Phase} {s s' : State} 
         · exact isContainer_of_isElement he
         · exact isContainer_of_isElement hq
     | text t' => trivial
-  have hb' : Big m r ph s' := hb1.dom hl2 hdo2 hext2.chg hrs hk02
+  have hadj1 : AdjD s1.dom s1.openElems := by obtain ⟨_, hc1, _⟩ := id hb1; exact hc1.adj
+  have hno : ∀ P a b x, s1.dom.childrenOf P = a ++ b → NodePos s1.dom ip P b → x ∈ a → x ∈ s1.openElems →
+      exm (nm s1.dom x) = false → False := fun P a b x hP hpos hxa hxO hxx =>
+    h.no_open_before ht hares P a b x (by rw [← hk]; exact hP)
+      (hpos.congr (fun y => (hk y).symm) (fun p _ => (parentOf_of_nodes q1.nodes p).symm)) hxa
+      (by rw [← q1.openElems]; exact hxO) (by rw [← q1.nm]; exact hxx)
+  have hadj' : AdjD s'.dom s'.openElems := by
+    have hst : s'.openElems = s1.openElems := by rw [hdo2]
+    rw [hst]
+    cases child with
+    | text t' =>
+      refine insertAt_text_adj hb1.late hipok1 hadj1 hb1.late.st.oe (fun x hpx hxO hxx => ?_) e2
+      obtain ⟨P, a, b, hP, hpos, hxa⟩ := hpx.pos
+      exact hno P a b x hP hpos hxa hxO hxx
+    | node c =>
+      obtain ⟨_, h2, h3, h4, h5⟩ := hch
+      have hd : s1.dom.dataOf c = s.dom.dataOf c := by unfold Dom.dataOf; rw [q1.nodes]
+      refine (insertAt_node_adj hb1.late hipok1 hadj1 (by rw [q1.openElems]; exact h5)
+        (by rw [parentOf_of_nodes q1.nodes]; exact h4) ?_ ?_ e2).1
+      · rw [isText_of_data hd]
+        rcases h3 with h3 | ⟨t', h3⟩
+        · exact isText_false_of_isElement h3
+        · unfold Dom.isText; rw [h3]
+      · intro p hp
+        have hlt := hipok1.nodes_lt p hp
+        rw [hsz] at hlt
+        refine h2 p hlt ?_
+        cases ip with
+        | lastChild q =>
+          simp only [InsertionPoint.nodes] at hp
+          rcases hp with rfl | hp
+          · have := hipok1.2; unfold Dom.isContainer Dom.dataOf at this ⊢; rw [← q1.nodes]; exact this
+          · cases hp
+        | beforeSibling _ => exact absurd hipok1 id
+        | tableFosterParenting e' q =>
+          simp only [InsertionPoint.nodes, Option.some.injEq] at hp
+          have he := hipok1.1; have hq := hipok1.2.2
+          rw [isElement_of_nodes q1.nodes] at he hq
+          rcases hp with rfl | rfl
+          · exact isContainer_of_isElement he
+          · exact isContainer_of_isElement hq
+  have hb' : Big m r ph s' := hb1.dom hl2 hdo2 hext2.chg hrs hk02 hadj'
   refine ⟨hb', ?_, (SameSk.of_nodes q1.nodes).chg.trans hext2.chg⟩
   have h1 := q1.rest
   show s' = { s with dom := s'.dom, traceRev := s'.traceRev }
@@ -841,7 +1042,7 @@ instance (text : Str) [hne : NE text] : PB (appendText text) :=
     unfold appendText at e
     obtain ⟨u, s1, e1, e2⟩ := bind_ok.mp e
     obtain ⟨_, rfl⟩ := pure_ok.mp e2
-    obtain ⟨h1, hdo, _⟩ := insertAppropriately_big (child := .text text) hb (by intro t ht; cases ht) hne.h e1
+    obtain ⟨h1, hdo, _⟩ := insertAppropriately_big (child := .text text) hb hne.h e1
     exact ⟨h1, by rw [hdo], by rw [hdo]⟩⟩
 
 instance (text : Str) : PB (appendComment text) :=
@@ -857,15 +1058,17 @@ instance (text : Str) : PB (appendComment text) :=
     obtain ⟨_, _, hk1, hid, hs1, _⟩ := createComment_spec hb.late.base text
     rw [← hdom1] at hk1 hs1
     have hrs1 : RS r s.dom s1.dom := by rw [hdom1]; exact rs_alloc r hb.late.base _
-    have hb1 : Big m r ph s1 := hb.dom hl1 hdo1 hext1.chg hrs1 (hk1 0)
+    obtain ⟨hadj1, hpar1, htx1, hnO1⟩ := createComment_adj hb.late
+      (by obtain ⟨_, hc0, _⟩ := id hb; exact hc0.adj) e1
+    have hb1 : Big m r ph s1 := hb.dom hl1 hdo1 hext1.chg hrs1 (hk1 0) hadj1
     have hnol : ∀ q, c ∉ s1.dom.childrenOf q := fun q hq => by
       rw [hk1] at hq
       exact Nat.lt_irrefl _ (Nat.lt_of_lt_of_le (hb.late.base.kidsValid q _ hq) hfresh1)
     have hncont : ∀ x, x < s1.dom.size → s1.dom.isContainer x = true → x ≠ c := fun x _ hcx hxc => by
       subst hxc
       unfold Dom.isContainer at hcx; rw [hcd1] at hcx; cases hcx
-    obtain ⟨h2, hdo2, _⟩ := insertAppropriately_big (child := .node c) hb1 (by intro t ht; cases ht)
-      ⟨hnol, hncont, Or.inr ⟨text, hcd1⟩⟩ e3
+    obtain ⟨h2, hdo2, _⟩ := insertAppropriately_big (child := .node c) hb1
+      ⟨hnol, hncont, Or.inr ⟨text, hcd1⟩, hpar1, hnO1⟩ e3
     exact ⟨h2, by rw [hdo2, hdo1], by rw [hdo2, hdo1]⟩⟩
 
 end H5V.Props.C06
